@@ -16,6 +16,10 @@ import (
 // (GORACE=log_path=<p> writes to <p>.<pid>) so that each report is attributed to
 // the execution during which it was printed.
 type Log struct {
+	// Transparent lists path fragments of harness files whose frames are callbacks
+	// invoked BY gorm (model methods, custom serializers): they are skipped when
+	// looking for the gorm statement that performs an access.
+	Transparent []string
 	path string
 	off  int64
 	repo string
@@ -119,6 +123,15 @@ func (rep Report) site(st []frame) (string, bool) {
 	goroot := runtime.GOROOT() + "/"
 	for _, f := range st {
 		if strings.HasPrefix(f.file, goroot) || strings.Contains(f.file, "/go/src/") || strings.Contains(f.file, "/lib/go-") || strings.Contains(f.file, "/verifshim/") || strings.HasSuffix(f.file, "verifshim.go") {
+			continue
+		}
+		transparent := false
+		for _, t := range rep.rl.Transparent {
+			if strings.Contains(f.file, t) {
+				transparent = true
+			}
+		}
+		if transparent {
 			continue
 		}
 		if strings.HasPrefix(f.file, rep.rl.repo+"/") {
